@@ -19,12 +19,22 @@ CONFIG = {
         "quick_wall_cap": 300,
         "thorough_wall_cap": 3000,
         "block": 25,
-        "rule": ("A case is one seeded run: a signal (class, shape, dtype, metadata), its Dask twin over sentinel "
-                 "sources with a tape-drawn chunk layout, a pipeline of 1-4 public operations applied to both, "
-                 "then 2-4 computes of the lazy result under simulated schedulers (mode, workers, chunksize, "
-                 "transport, completion order, optional abort/task failure). Non-trivial = at least one operation "
-                 "succeeded on both and more than one task executed; distinct = distinct SHA-256 of the event log "
-                 "(case, operations, schedules, task completion order hashes)."),
+        "rule": ("A case is one seeded run. Scenario 'twin' (5 of 6 runs): a signal (any of the six classes, "
+                 "1-96 samples (192 thorough), 1-8 channels (16), trailing axes, float/complex/integer dtypes, "
+                 "metadata incl. bands across 0 Hz), its Dask twin over sentinel sources with a tape-drawn chunk "
+                 "layout (time axis chunked in 1 of 6), a pipeline of 1-4 (6) public operations applied to both "
+                 "(slices, ufuncs/operators, conversions, time/freq shift, snippet, concatenate, dedispersion, "
+                 "chirp functions, signal_transform, stft/istft, the 14 pb.fft functions with axis/axes/n/norm, "
+                 "container methods also on the NumPy twin), an optional scribble over the NumPy result followed "
+                 "by a repeat, an optional fork (same operation twice with other arguments or on a derived input, "
+                 "both in one graph), observers, then 2-4 computes under simulated schedulers (dask-core or "
+                 "free-order mode, 1-16 workers, chunksize, shared/pickled/mixed transport, completion order, "
+                 "optional abort / failing task, optional line-level pre-emption between in-flight tasks). "
+                 "Scenario 'readers' (1 of 6): two readers (siblings with the same geometry, or the same file with "
+                 "different sideband flags) read lazily, combined and pushed through the same machinery. "
+                 "Non-trivial = at least one operation succeeded on both twins and more than one task executed; "
+                 "distinct = distinct SHA-256 of the event log (case, operations, schedules, task completion "
+                 "order hashes)."),
         "assumptions": [
             "the three local schedulers are modelled by dask.local.get_async with W workers and identity (threaded/synchronous) or cloudpickle (multiprocess, incl. cull+fuse) transport; dask.distributed is not installed and not modelled",
             "tasks execute atomically at their completion instant",
@@ -53,16 +63,21 @@ CONFIG = {
         "quick_wall_cap": 240,
         "thorough_wall_cap": 3000,
         "block": 4,
-        "rule": ("A case is one seeded history: a tape-drawn heap (1-3 signals of any class over "
-                 "writable NumPy buffers in C/F/strided/reversed/channel-strided layout, some "
-                 "Dask-backed, plus the library's mutable default arguments) and 1-8 (quick) or "
-                 "1-12 (thorough) public calls whose results join the heap. For each step under "
-                 "test EVERY line-level crash point inside pulsarbat/ is injected once "
-                 "(KeyboardInterrupt or MemoryError subclass, per step), and the whole heap is "
-                 "compared byte-wise with its pre-call snapshot after every execution. "
-                 "Non-trivial = the run enumerated the crash points of at least one step or has "
-                 ">= 2 steps; distinct = distinct SHA-256 of the full event log (world, steps, "
-                 "arguments, outcomes, per-step crash-point counts, result hashes)."),
+        "rule": ("A case is one seeded history: a tape-drawn heap (1-3 signals of any class over writable NumPy "
+                 "buffers in C/F/strided/reversed/channel-strided layout, a quarter of them Dask-backed, in one run "
+                 "of four a reader with its constructor arguments, plus the library's mutable default arguments) "
+                 "and 1-8 (quick) or 1-12 (thorough) public calls whose results and arguments join the heap "
+                 "(all operations of the C09 registry, observers, DM functions, real_to_complex, constructors from "
+                 "raw native/byte-swapped buffers with Time arguments of several formats, ufuncs with "
+                 "where=/dtype=/casting=, pickling, compute under the simulated cluster, reader calls, and the "
+                 "sanctioned in-place / out= forms incl. out= naming a third signal). For each step under test "
+                 "EVERY line-level crash point inside pulsarbat/ is injected once (KeyboardInterrupt or "
+                 "MemoryError subclass; for reader steps also an OSError at every open/seek/read/close; in the "
+                 "thorough tier for one step in five also up to 300 instruction-level points), and the whole heap "
+                 "is compared byte-wise with its pre-call snapshot after every execution; a write through an "
+                 "alias is accepted only inside the alias group of the named target. Non-trivial = the run "
+                 "enumerated the crash points of at least one step or has >= 2 steps; distinct = distinct SHA-256 "
+                 "of the full event log."),
         "assumptions": [
             "crash points are line events of pulsarbat/ frames; NumPy/SciPy/Dask/astropy code runs atomically between them",
             "MemoryError and KeyboardInterrupt subclasses stand for a failed allocation and Ctrl-C",
@@ -127,13 +142,20 @@ CONFIG["C11"] = {
     "quick_wall_cap": 400,
     "thorough_wall_cap": 3000,
     "block": 8,
-    "rule": ("A case is one seeded run: 1-2 readers on files drawn from the four repository sample files and eleven "
-             "synthesised file kinds (VDIF real/complex multi-thread, DADA complex/real/multi-file, GUPPI multi-file "
-             "with OBSBW of either sign, DADA Stokes with BW of either sign; sideband flags none/all/mask), 1-4 "
-             "simulated caller threads each running 1-6 calls, a switch probability, optional shared lock, optional "
-             "I/O fault rate and caller kills. Non-trivial = at least two recorded calls; distinct = distinct "
-             "SHA-256 of the event log (case, every call's arguments/outcome/result hash in global order, "
-             "schedule decisions)."),
+    "rule": ("A case is one seeded run. Scenarios 'files' and 'files_faults' (2 of 5 runs each): 1-2 readers on "
+             "files drawn from the four repository sample files and eleven synthesised file kinds (VDIF real/complex "
+             "1-8 threads 2/8 bit, DADA complex/real/multi-file, multi-file GUPPI with OBSBW of either sign and "
+             "LIN/CIRC, DADA Stokes with BW of either sign and even/odd channel counts; sideband flags "
+             "none/all/mask given as bool array, bool list, int list or integer array; documented defaults "
+             "sometimes omitted; pairs of sibling files or the same file with different options), 1-4 (6) "
+             "simulated caller threads each running 1-6 (10) calls (read, dask_read and multi-output Dask reads "
+             "under the simulated cluster, reads through pickle/cloudpickle/copy/deepcopy clones, adjacent reads, "
+             "round trips, out-of-range requests, a read after the client overwrote an earlier result), a switch "
+             "probability, optional shared client lock, optional stalls; with faults: OSError at open/seek/read "
+             "(entry or mid-read)/close and killed callers. Scenario 'store' (1 of 5): BaseReader through a "
+             "harness subclass over a virtual store, sample rates 1 mHz-2 GHz, lengths to 2e9, any signal "
+             "class, with or without start time. Non-trivial = at least two recorded calls; distinct = distinct "
+             "SHA-256 of the event log (case, every call's arguments/outcome/result hash in global order)."),
     "assumptions": [
         "pre-emption points are line events of pulsarbat/readers/* and pulsarbat/utils.py plus every call through the I/O seam; baseband/NumPy code is atomic between them",
         "short reads and flipped bytes are not injected: the stream-reader contract excludes short reads and the formats carry no checksum",
